@@ -663,6 +663,10 @@ static void run_xor(void)
                     int miss[40], nm = 0;
                     for (int i = 0; i < n; i++) { char *b = i < g->k ? bd[i] : bp[i - g->k]; if (es[e] >> i & 1) { memset(b, i < g->k ? 0xE1 + i : 0, P); miss[nm++] = i; }   /* parity is accumulated into, as in encode: the caller hands in zeroed parity buffers; lost data buffers hold anything */ else memcpy(b, s->frag[i] + 80, P); }
                     miss[nm] = -1;
+                    /* the list is a set: half of the calls hand it over in descending or rotated order */
+                    if ((e / 2 + dp) % 3 == 1) for (int i = 0; i < nm / 2; i++) { int t = miss[i]; miss[i] = miss[nm - 1 - i]; miss[nm - 1 - i] = t; }
+                    else if ((e / 2 + dp) % 3 == 2 && nm > 1) { int t = miss[0]; for (int i = 0; i + 1 < nm; i++) miss[i] = miss[i + 1]; miss[nm - 1] = t; }
+                    if (nm > 1 && miss[0] > miss[1]) mon_count("direct_decoder_calls_with_unsorted_list", 1);
                     int rc = xc->decode(xc, bd, bp, miss, (int)P, dp);
                     mon_count("evaluations", 1); mon_count("direct_decoder_calls", 1);
                     if (rc != 0) mon_viol("C05", "direct-decode-failed", "xor_code decode(decode_parity=%d) returned %d for %d erasures (hd=%d)", dp, rc, nm, g->hd);
@@ -885,8 +889,8 @@ static void run_needed(int which)
 }
 
 /* ================================================================ C20 */
-enum { DMG_PAYLOAD_BIT, DMG_IDX_RANGE, DMG_BACKEND_ID, DMG_BACKEND_VER, DMG_LIB_VER, DMG_KINDS };
-static const char *dmg_name[] = { "payload-bit", "idx-out-of-range", "backend-id", "backend-version", "libver-newer" };
+enum { DMG_PAYLOAD_BIT, DMG_IDX_RANGE, DMG_BACKEND_ID, DMG_BACKEND_VER, DMG_LIB_VER, DMG_KINDS, DMG_HDR_UNSEALED = DMG_KINDS };
+static const char *dmg_name[] = { "payload-bit", "idx-out-of-range", "backend-id", "backend-version", "libver-newer", "header-bit-unsealed" };
 
 static void damage(uint8_t *f, uint64_t flen, int kind, rng_t *r, int n)
 {
@@ -896,6 +900,15 @@ static void damage(uint8_t *f, uint64_t flen, int kind, rng_t *r, int n)
     case DMG_BACKEND_ID: f[REF_OFF_BEID] ^= (uint8_t)(1 + rng_below(r, 7)); ref_hdr_reseal(f, 0); break;
     case DMG_BACKEND_VER: ref_put32(f + REF_OFF_BEVER, ref_get32(f + REF_OFF_BEVER) + 1); ref_hdr_reseal(f, 0); break;
     case DMG_LIB_VER: ref_put32(f + REF_OFF_LIBVER, ref_get32(f + REF_OFF_LIBVER) + 1); ref_hdr_reseal(f, 0); break;
+    case DMG_HDR_UNSEALED: {
+        /* a metadata bit flipped and NOT re-sealed (index, size, logical size or checksum type), on a fragment stamped with the
+         * running version, or with 1.2.0 / 1.2.1 - the oldest writers whose header checksum is verified */
+        static const int at[] = { REF_OFF_IDX, REF_OFF_IDX, REF_OFF_SIZE, REF_OFF_ORIG, REF_OFF_CT, REF_OFF_CHKSUM };
+        static const uint32_t vs[] = { 0, 0x010200, 0x010201, 0x010200 };
+        uint32_t v = vs[rng_below(r, 4)];
+        if (v) { ref_put32(f + REF_OFF_LIBVER, v); ref_hdr_reseal(f, 0); }
+        f[at[rng_below(r, 6)]] ^= (uint8_t)(1u << rng_below(r, 3));
+    } break;
     }
 }
 
@@ -1002,6 +1015,13 @@ static void run_force(int which)
                     mon_count("cases_with_damaged_duplicate_of_a_valid_index", ndecoy ? 1 : 0);
                 }
                 int within = must_succeed(&x, valid);
+                /* one case in eight: the first damaged fragment carries an un-sealed header edit instead.  C20 quantifies the "must
+                 * succeed" half over payload and re-sealed damage only (a broken seal makes decode refuse the whole call), so for
+                 * these only "an error or the original bytes, never other bytes" is judged */
+                if (e % 8 == 5 && nb >= 1) {
+                    for (int i = 0; i < cnt; i++) if (idx[i] == sl[0]) { memcpy(pr.ptr[i], s->frag[idx[i]], s->flen); rng_t rd; rng_seed(&rd, MO.seed, (uint64_t)(e * 977 + 3)); damage((uint8_t *)pr.ptr[i], s->flen, DMG_HDR_UNSEALED, &rd, n); }
+                    within = 0; strncat(kd, "+header-bit-unsealed", sizeof kd - strlen(kd) - 1); mon_count("cases_with_unsealed_header_damage", 1);
+                }
                 char *out = NULL; uint64_t outlen = 0;
                 int other_reader = desc2 > 0 && e % 4 == 3;
                 if (other_reader) { mon_count("cases_read_through_instance_with_other_checksum_type", 1); strncat(dk, dk[0] ? "+other-ct-reader" : "other-ct-reader", sizeof dk - strlen(dk) - 1); }
